@@ -475,3 +475,12 @@ def to_xarray_cube(u: Unit):
         u.oblige(p, "to_xarray.cube.labelled_by_row_and_column_index", z3.And(index_axis(sets.get("y"), D.ROWS, "y"), index_axis(sets.get("x"), D.COLS, "x")),
                  {"coordinates set on the export": str(sorted(sets))}, CUBE_REPLAY)
     u.cover("to_xarray.cube.cover", ps, lambda p: p.kind == "return")
+
+
+def _run_mode_dispatch(u: Unit):
+    """C09.run_mode_dispatch (imported late)"""
+    from . import C09 as _C09
+    return _C09.run_mode_dispatch(u)
+
+
+unit("C03", "run_mode.dispatch")(_run_mode_dispatch)      # what run_mode returns IS what the mode's run returned; debug / layout flags reach the run as given
